@@ -104,6 +104,8 @@ def make_runner(c, f, mutate, sink, fixed=None, case=None):
         if case is not None:
             for cl in clauses(eval_cfn(ip, _plain_fn(c.cases[case][1]), values)):
                 st.assume(ip.zbool(cl))
+        if c.hints is not None:
+            eval_cfn(ip, c.hints, values)
         if not st.ghost.get('_presat_done'):
             if not st.feasible(z3.BoolVal(True)):
                 st.oblige('pre-sat', 'requires satisfiable', z3.BoolVal(False))
@@ -594,8 +596,7 @@ def native_check(c, f, nargs, want_kind=None):
         try:
             r = post(values, olds)
         except Exception as ex2:
-            obs['clause_error'] = "%s: %r" % (name, ex2)
-            violated.append('ensures:%s (evaluation raised %s)' % (name, type(ex2).__name__))
+            obs['clause_error'] = "%s: %r" % (name, ex2)     # the clause could not be evaluated natively: no verdict
             continue
         rs = list(r) if isinstance(r, tuple) else [r]
         for i, x in enumerate(rs):
@@ -900,3 +901,31 @@ def verify_lemma(lm, both=False):
         res.error = "%s: %s\n%s" % (type(ex).__name__, ex, traceback.format_exc()[-1500:])
     res.secs = time.time() - t0
     return res
+
+
+# ------------------------------------------------------------------ native sampling of a unit's contract (bounded stand-in)
+def native_sampling(c, f, n, seed):
+    """evaluate the unit's contract at run time on the real function over seeded samples of its builders"""
+    rng = random.Random(seed * 7919 + 13)
+    done = 0
+    attempts = 0
+    found = []
+    distinct = set()
+    while done < n and attempts < n * 20:
+        attempts += 1
+        try:
+            nargs = c.samples(rng) if c.samples is not None else {k: b.sample(rng) for k, b in c.sig.items()}
+            chk = native_check(c, f, nargs)
+        except Exception as ex:
+            continue
+        if chk.get('pre') is not True:
+            continue
+        done += 1
+        try:
+            distinct.add(repr({k: _norm_native(v_) for k, v_ in nargs.items() if not isinstance(c.sig.get(k), api.Const)})[:400])
+        except Exception:
+            pass
+        if chk['violated'] and len(found) < 5:
+            found.append({'clauses': chk['violated'], 'inputs': repr({k: _norm_native(v_) for k, v_ in nargs.items() if not isinstance(c.sig.get(k), api.Const)})[:2000],
+                          'observation': chk['observation']})
+    return {'evaluations': done, 'distinct': len(distinct), 'violations': found}
